@@ -368,7 +368,7 @@ def c07(tier, seed):
         verdict.add(c)
         if c.result: counts[(c.meta["variant"], c.meta["setup"])] = c.result.get("os", {})
     # 2. one process per fault position
-    per_class = tier_n(tier, 10, 100000)
+    per_class = tier_n(tier, 10, 150)          # positions per (setup, call class); all of them when the workload makes fewer calls
     rnd = random.Random(seed)
     cases = []
     for v in variants:
